@@ -116,6 +116,14 @@ def generate(seed, tier):
             chrom = w.choice(chroms + ['chrNA']) if w.random() < 0.1 else w.choice(chroms)
             strand = w.choice([None, None, '+', '-'])
             pos = weighted(w, [(w.randint(0, span + span // 8 + 2), 10), (w.randint(-50, -1), 1), (span * 10 + w.randint(0, 100), 1)])
+            if issued and w.random() < 0.25:
+                # same start coordinate (and strand) as an earlier query but another kind / extent: results of different queries
+                # that share a key in the memo must not contaminate each other
+                o = w.choice(issued)
+                chrom, strand = o[2], (o[4] if o[0] == 'at' else (o[5] if o[0] in ('between', 'read') else strand))
+                pos = o[3]
+                if w.random() < 0.5 and o[0] == 'between':
+                    pos = o[4]
             if x < 0.7:
                 q = ['at', c, chrom, pos, strand, w.choice(['bdbnb', 'bdbnb', 'bdbnb', 'nb', 'optim'])]
             elif x < 0.88:
